@@ -88,9 +88,19 @@ def rule_accessors(ctx: Ctx, rule: str = "R-FRAME") -> None:
         ("common.object2d.DynamicObject2D.get_distance_bev", "math.hypot({P}[0],{P}[1])", False),
         (OBJQ + "get_heading_bev", None, True),
     ]
+    from sa.effects import Effects
+    ef = Effects(ctx.index, ctx.resolver)
+    ef.solve()
     for fq, shape, heading in specs:
         fi = ctx.func(fq)
         short = fq.split(".", 2)[-1]
+        muts = [(prm, path, m) for (prm, path), m in ef.of(fi).mutates.items() if prm == "self"]
+        if muts:
+            prm, path, m = muts[0]
+            ctx.violate(rule, short, f"memoised:{path}", f"{short} stores into self{path} ({m.how}, line {m.line}): the value depends on `transforms`, `frame_id` and the object's state, all of which change "
+                        "between calls (objects are deep-copied and re-expressed in another frame, the same object is asked with different ego poses); a remembered value is returned for the wrong frame", fi=fi,
+                        expected="a pure function of (state, frame_id, transforms)", found=f"{m.how} on self{path}")
+            continue
         paths = enum_paths(ctx, fi, fork_ifexp=not heading)
         rows = set()
         for p in paths:
@@ -287,6 +297,13 @@ def rule_aph_weight(ctx: Ctx, rule: str = "C09-aph-weight") -> None:
         est = next(h for h in heads if S(h.func.value) == f"{res}.estimated_object")
         gt = next(h for h in heads if S(h.func.value) == f"{res}.ground_truth_object")
         F = Formula(rename={S(est): "he", S(gt): "hg"})
+        acos = [n for n in ast.walk(x) if isinstance(n, ast.Call) and S(n.func) in ("np.arccos", "math.acos", "numpy.arccos", "np.arcsin", "math.asin") and n.args]
+        unclipped = [n for n in acos if not (isinstance(n.args[0], ast.Call) and S(n.args[0].func) in ("np.clip", "numpy.clip", "min", "max"))]
+        if unclipped:
+            ctx.violate(rule, "TPMetricsAph.get_value", "unclipped-arccos",
+                        f"the heading difference is `{S(unclipped[0])[:120]}`: the dot product of two unit vectors can round to 1.0000000000000002, arccos then returns NaN and the clamp turns "
+                        "the weight of two IDENTICAL headings into 0; clip the argument to [-1, 1] or use the folded absolute difference", fi=fi, expected="d = |h_est - h_gt| folded by 2*pi - d", found=S(unclipped[0])[:160])
+            continue
         fold = fact_where(p, lambda k: S(k).startswith("cmp:pi<abs(") or S(k).startswith("cmp:math.pi<abs(") or S(k).startswith("cmp:np.pi<abs("))
         if fold is None:
             signed = [k for k in p.facts if S(k).startswith(("cmp:pi<", "cmp:math.pi<", "cmp:np.pi<")) and "get_heading_bev" in k]
